@@ -19,6 +19,7 @@ STRENGTHENED = {
     "C03c": "orientations and frames rotated by multiples of 90 degrees built from Euler angles (entries ~6e-17 instead of exact zeros; `gen._euler90`), optional re-expression of every case in a rotated frame, and the exhaustive oracle `degenerate_grid` (24 aligned grains x 64 such frames x 18 axis-aligned flows x 3 scales per generated fabric/parameter set)",
     "C07c": "new failure kind `bad_phase_unlisted`: a mineral with an invalid phase ordinal that the (valid) assemblage does not list",
     "C10c": "new oracle `stiffness_mutation_sequence`: one StiffnessTensors instance is reused for several averages with its attributes reassigned in between (the documented way to set custom stiffnesses), and the default instance is checked afterwards",
+    "C14c": "new exhaustive oracle `axis_aligned_pairs_exhaustive`: all 300 two-grain sets of axis-aligned orientations (misorientations exactly 0/90/120/180 degrees, on bin edges and on the end of the angle range) in several frames, triclinic and monoclinic",
     "C14b": "the uniform-texture limit is now compared with the independent correct M-index of the same texture (M <= M_ref + 0.02) instead of a loose multiple of it",
     "C20": "new differential part of `point_density`: raw estimates are rebuilt from the documented counting grid with pydrex's kernel functions, normalised, clipped and compared (1e-9)",
 }
